@@ -11,7 +11,18 @@ use std::str::FromStr;
 /// elements, even if they use the same tag name.
 pub fn has_name(node: &Node, name: &str) -> bool {
     let tag = node.tag_name();
-    tag.name() == name && tag.namespace() == node.document().root_element().tag_name().namespace()
+    tag.name() == name && tag.namespace() == root_namespace(node)
+}
+
+/// Returns the namespace of the root element of the document a node belongs to.
+///
+/// The root element is looked up through the ancestors of the node. Asking the document
+/// would walk over all comments in front of the root element for every single call.
+pub fn root_namespace<'a>(node: &Node<'a, '_>) -> Option<&'a str> {
+    node.ancestors()
+        .filter(|n| n.is_element())
+        .last()
+        .and_then(|root| root.tag_name().namespace())
 }
 
 /// Returns the namespace prefix of an element exactly as it is written in the document.
